@@ -100,6 +100,18 @@ func init() {
 	suites["C06"] = func(c *Ctx) (string, error) {
 		var cases []Case
 		pool, cl := stringInputs(c)
+		// one raw control byte (and the bytes around the 0x20 boundary) at every position of plain strings of length 8…26:
+		// block-wise scans must find it wherever it sits
+		for L := 8; L <= 26; L++ {
+			for pos := 0; pos < L; pos++ {
+				for _, b := range []byte{0x00, 0x01, 0x08, 0x0a, 0x1e, 0x1f, 0x20, 0x21, 0x7f, 0x80, 0xff, '"', '\\'} {
+					body := bytes.Repeat([]byte("a"), L)
+					body[pos] = b
+					pool = append(pool, append(append([]byte{'"'}, body...), '"'))
+					cl = append(cl, "control-in-long")
+				}
+			}
+		}
 		for _, d := range byteNeighbourhood([]string{`"ab\n\u00e9\ud83d\ude00c"`, ` "x" `, `"\"\\\/\b"`, `"\ud800\u0041"`, `"é𝄞"`}) {
 			pool = append(pool, d)
 			cl = append(cl, "neighbourhood")
